@@ -95,6 +95,9 @@ def eval_cases(prop_id: str, run_module: str, terms: list, judge: str = "judge",
     d = os.path.join(BUILD, "cases", prop_id, tag + (f"_trial{os.getpid()}" if trial else ""))
     shutil.rmtree(d, ignore_errors=True)
     os.makedirs(d)
+    if trial:
+        import atexit
+        atexit.register(shutil.rmtree, d, True)      # whatever way the trial ends, its generated files go
     files = []
     first_case_line = {}
     for si in range(0, len(terms), shard):
@@ -518,4 +521,7 @@ def run(prop, argv=None) -> int:
     for l in violations: print(l)
     print(f"{pid}: obligations {ob['discharged']}/{ob['obligations']}, cases {len(cases)} (nontrivial distinct {len(nontrivial)}), "
           f"disagreements {len(disagreements)}, oracle failures {len(spec_fail)}, {wall:.1f}s")
+    if not violations:      # the generated case files (hundreds of MB in the thorough tier) are only of use when something failed
+        for tag in ("cases", "search", "explain", "replay"):      # (not the directories of trial runs that may be going on beside this one)
+            shutil.rmtree(os.path.join(BUILD, "cases", pid, tag), ignore_errors=True)
     return 1 if violations else 0
